@@ -20,7 +20,7 @@ ENTRY = {
                     "one subquery per statement, subquery FROM is a single table, correlation predicates compare one outer column with one inner column"],
     "min_tags": dict([(f"s:{f}:top:{r}", 3) for f in _FORMS for r in ("default", "nodecorr")] +
                      [(f"s:{f}:{p}:default", 1) for f in ("in", "in_not", "exists", "scalar_agg") for p in ("or", "select")] +
-                     [("path:join:in", 3), ("path:join:in_not", 3), ("path:join:exists", 3), ("path:join:scalar_agg", 3), ("path:rowbyrow:in", 3), ("path:rowbyrow:scalar_row", 3)]),
+                     [("path:join:in", 3), ("path:rowbyrow:in_not", 3), ("path:join:exists", 3), ("path:join:scalar_agg", 3), ("path:rowbyrow:in", 3), ("path:rowbyrow:scalar_row", 3)]),
     "manifest": {
         "category": "proof",
         "text": "29 Lean theorems (IQE.Props.C23). Row by row: the model of evaluate_in_subquery's loop with the intended NULL handling IS Spec's three-valued IN / NOT IN for every operand "
@@ -34,13 +34,14 @@ ENTRY = {
         "design_ref": "DESIGN.md §6 C23",
         "level_note": "Trusted: Lean kernel; propext/Classical.choice/Quot.sound; the reference semantics IQE.Spec; the generator's SQL printer / plan serializer pair; the hand-written model "
                       "IQE.Engine.Subquery. The decorrelation theorems take the subquery 'correlated by a predicate' (its result under outer row l is S.filter (m l)) and ON meaning m as hypotheses; "
-                      "syntactic instances are proved for a column equality. The unchanged tree violates the property in 12 listed ways (C23-F1..F13 without F4: NOT IN as plain anti join, row-by-row IN "
-                      "ignoring NULLs, A.26, lost correlation predicates of IN, count bug, swallowed cardinality error, batches[0]-only scalar, result typed from the first row, correlated IN failing "
-                      "outside a top-level conjunct, COUNT/SUM multiplied by the semi-join reduction, DATE refused by row-by-row IN); each is mirrored by a deviation switch of the model (F11 by a "
-                      "signature) and replayed from corpus/C23 on every run. SAMPLED ONLY / NOT COVERED: EXISTS with an equality plus a non-equality correlation under the production rules (the "
-                      "filtered semi/anti hash join is C22's finding; the rule's mirrored operator, nonEqFilterFlipped, is proved about the model and has a proposed fix but cannot be isolated on the "
-                      "engine); scalar aggregates with a non-equality correlation; decorrelated scalar subqueries over Parquet (scan-schema error unrelated to subqueries); DATE operands of scalar "
-                      "comparisons (untyped NULL literal); nested subqueries; subqueries in HAVING / ON.",
+                      "syntactic instances are proved for a column equality. The original tree violated the property in 13 listed ways. Repaired in /repo by fix: commits (switch removed from the "
+                      "active set, witness replayed from corpus/C23 on every run, a recurrence is a VIOLATION): C23-F1 NOT IN as plain anti join 47485db, C23-F2 row-by-row IN ignoring NULLs 08ac987, "
+                      "C23-F4 mirrored operator of a non-equality correlated EXISTS 1caf07a, C23-F5/F6 lost correlation predicates of IN / scalar decorrelation 2272b7e, C23-F7 count bug 51cab70. "
+                      "Still open, each mirrored by a deviation switch of the model (F11 by a signature) and printed as KNOWN-FINDING: C23-F3 (A.26: bare outer column pruned, error swallowed), "
+                      "C23-F8 swallowed cardinality / execution errors of row-by-row correlated subqueries, C23-F9 execute_scalar reads batches[0] only, C23-F10 result column typed from the first "
+                      "outer row, C23-F11 a correlated IN that is not decorrelated fails 'Column not found', C23-F12 COUNT/SUM multiplied by the semi-join reduction, C23-F13 row-by-row IN refuses DATE. "
+                      "SAMPLED ONLY / NOT COVERED: decorrelated scalar subqueries over Parquet (scan-schema error unrelated to subqueries; Parquet is used for IN / EXISTS only); DATE operands of "
+                      "scalar comparisons (untyped NULL literal); nested subqueries; subqueries in HAVING / ON; inputs above 1000 rows.",
         "technique": "Lean 4 proof over reference semantics + executable model; differential correspondence with the Rust engine on generated SQL, with and without the decorrelation rules",
     },
 }
